@@ -17,6 +17,9 @@ def extra(led, tier, seed):
     led.extend(F.domain_linkage())
     led.extend(F.kauri_kernel_obligations())
     led.extend(F.read_set_obligations())
+    from contracts import fit_loop
+    led.extend(o for o in fit_loop.obligations() if any(k in o.name for k in (
+        "affinity = gemini.compute_affinity", "with this batch's affinity block", "the objective called is the model's GEMINI")))
     led.extend(o for o in predict_glue.obligations() if "KernelRIM._compute_kernel" in o.name or ".score:" in o.name)
     led.extend(F.native_equivalence(seed, tier))
     led.assume("A4", "A5: sklearn.metrics.pairwise_kernels / pairwise_distances(X, metric=name, **params) are the named kernel / metric with those parameters",
